@@ -444,8 +444,8 @@ def _set_allocations_for_consumer(req, schema):
         try:
             rp_objs = _resource_providers_by_uuid(
                 context, allocation_data.keys())
-        except webob.exc.HTTPBadRequest:
-            # Do not leave an auto-created consumer behind a rejected request.
+        except Exception:
+            # Do not leave an auto-created consumer behind a failed request.
             with excutils.save_and_reraise_exception():
                 if created_new_consumer:
                     delete_consumers([consumer])
@@ -573,8 +573,8 @@ def set_allocations(req):
     # generations (if applicable) check all in one go.
     try:
         allocations = create_allocation_list(context, data, consumers)
-    except webob.exc.HTTPBadRequest:
-        # Do not leave auto-created consumers behind a rejected request.
+    except Exception:
+        # Do not leave auto-created consumers behind a failed request.
         with excutils.save_and_reraise_exception():
             delete_consumers(new_consumers_created)
 
